@@ -90,6 +90,9 @@ func (r *run) fail(k, m string) {
 type upstream struct{ r *run }
 
 func (u upstream) RoundTrip(req *http.Request) (*http.Response, error) {
+	if err := req.Context().Err(); err != nil {
+		return nil, err // a real transport does not send a request whose context is already done
+	}
 	raw, _ := io.ReadAll(req.Body)
 	req.Body.Close()
 	if req.Header.Get("Content-Encoding") == "lz4" {
